@@ -22,7 +22,7 @@ import bounded             # noqa: E402
 import scans               # noqa: E402
 
 REPO = os.environ.get("VERIF_REPO", "/repo")
-EVID = os.path.join(HERE, "evidence")
+EVID = os.environ.get("VERIF_EVIDENCE_DIR", os.path.join(HERE, "evidence"))   # seeded-change runs point this elsewhere
 REPLAYS = os.path.join(HERE, "replays")
 
 
